@@ -35,25 +35,33 @@ ShapeOut == (n = 1 /\ pc = 1 /\ ~crashed.on) =>
 
 (* ---- histories ---- *)
 DriverRoutine == IF Routine \in {"lru", "lru_inplace", "lru_fixed"} THEN "lru"
-                 ELSE IF Routine = "journal_fixed" THEN "journal" ELSE Routine
+                 ELSE IF Routine \in {"journal_fixed", "journal_save"} THEN "journal"
+                 ELSE IF Routine = "disk_nosync" THEN "disk" ELSE Routine
 Alphabet ==
   CASE DriverRoutine = "lru"     -> {"mut", "bump", "save", "shutdown", "reopen"}
-    [] DriverRoutine = "index"   -> {"add", "rm", "flush", "save", "reopen"}
+    [] DriverRoutine = "index"   -> {"add", "rm", "flush", "save", "reopen", "fill", "addf"}
     [] DriverRoutine = "res"     -> {"mark", "unmark", "save", "reopen"}
     [] DriverRoutine = "disk"    -> {"puta", "putb", "rma", "reopen"}
-    [] DriverRoutine = "journal" -> {"rec", "reopen"}
+    [] DriverRoutine = "journal" -> {"rec", "reopen", "fresh", "wsave"}
 SaveOps ==
   CASE DriverRoutine = "lru"     -> {"save", "shutdown"}
-    [] DriverRoutine = "index"   -> {"save", "flush"}
+    [] DriverRoutine = "index"   -> {"save", "flush", "addf"}
     [] DriverRoutine = "res"     -> {"save"}
     [] DriverRoutine = "disk"    -> {"puta", "putb"}
-    [] DriverRoutine = "journal" -> {"rec"}
+    [] DriverRoutine = "journal" -> {"rec", "wsave"}
 
+\* "fill" (fill the update section of a bucket) only opens a history; "addf" (an add_entry that finds the section
+\* full and therefore flushes and saves the bucket) only makes sense behind it
+InSeq(h, x) == \E i \in 1..Len(h) : h[i] = x
+Sensible(h, op) == /\ (op = "fill" => h = <<>>)
+                   /\ (op = "addf" => InSeq(h, "fill") /\ ~InSeq(h, "flush") /\ ~InSeq(h, "addf"))
+                   /\ (op = "fresh" => h # <<>> /\ h[Len(h)] # "fresh")
 NSaves(h) == Cardinality({i \in 1..Len(h) : h[i] \in SaveOps})
 GInit == hist = <<>> /\ fs = FsEmpty /\ n = 1 /\ pc = 1 /\ crashed = NoCrash /\ proto = <<>>
 GNext == /\ Len(hist) < D
          /\ \E op \in Alphabet :
               /\ ~(op = "reopen" /\ hist # <<>> /\ hist[Len(hist)] = "reopen")
+              /\ Sensible(hist, op)
               /\ hist' = Append(hist, op)
               /\ NSaves(hist') <= MaxSaves
          /\ UNCHANGED csvars
